@@ -104,6 +104,27 @@ where
     FrameFn: FnOnce(&str, u32) -> T2 + Sync,
     T2: Future<Output = Result<FrameIO, Error>>,
 {
+    let ret = h11c_handshake_request(ctx.clone(), queue, create_frames).await;
+    // the connection ends here: give its record a terminal state and the reason
+    let failure = ret
+        .as_ref()
+        .err()
+        .map(|e| format!("handshake failed: {} cause: {:?}", e, e.cause));
+    if let Some(msg) = failure {
+        ctx.on_error(easy_error::err_msg(msg)).await;
+    }
+    ret
+}
+
+async fn h11c_handshake_request<FrameFn, T2>(
+    ctx: ContextRef,
+    queue: Sender<ContextRef>,
+    create_frames: FrameFn,
+) -> Result<(), Error>
+where
+    FrameFn: FnOnce(&str, u32) -> T2 + Sync,
+    T2: Future<Output = Result<FrameIO, Error>>,
+{
     // the client is waited for without holding the context lock: the management API reads live contexts
     let mut socket = ctx.write().await.take_client_stream();
     let request = HttpRequest::read_from(&mut socket).await;
